@@ -257,7 +257,14 @@ func (m *MaxDistanceToShapeIndexTarget) visitContainingShapes(index *ShapeIndex,
 	//
 	// TODO(roberts): Do this by merge-joining the two ShapeIndexes and share
 	// the code with BooleanOperation.
-	for _, shape := range m.index.shapes {
+	// Visit the target's shapes in increasing id order: when the search stops
+	// after MaxResults containing shapes, ranging over the shape map would make
+	// the reported shapes differ from call to call.
+	for shapeID := int32(0); shapeID < m.index.nextID; shapeID++ {
+		shape := m.index.Shape(shapeID)
+		if shape == nil {
+			continue
+		}
 		numChains := shape.NumChains()
 		// Shapes that don't have any edges require a special case (below).
 		testedPoint := false
